@@ -1,8 +1,11 @@
-import Lemmas.Bytes
+import Lemmas.Bundle
+import Lemmas.Demo
 /-!
 # C07 — single-dash modes follow the documented rewriting; long options ignore the mode
 
-Splitter-level theorems (for every token, no bound on its length).
+Splitter-level theorems (for every token, no bound on its length) and their lifting to the complete
+observable outcome of a parse (`*_rewrite_parse`): the token is replaced by its documented rewriting
+in the middle of an arbitrary command line.
 -/
 namespace GoModel
 
@@ -97,5 +100,161 @@ theorem long_bare (name : Str) (m : Mode) (hn : name ≠ []) (hne : ∀ c ∈ na
       simp [splitDashes, chDash, hc']
     rw [s]
     simp only [nameOf_noEq (c :: n) hne, restOf_noEq (c :: n) hne, attached]
+
+/-! ## Lifting to the whole command line -/
+
+section WholeParse
+variable (ext : Ext)
+
+/-- a head position: no error, no option waiting for a value, not stopped -/
+def AtHead (s : PState) : Prop := s.err = none ∧ s.ctx = .idle
+
+/-- **Normal mode, whole command line**: replacing the token `-NAME[=V]`, given where an option may
+start and naming a declared option, by `--NAME[=V]` changes nothing observable in the parse result
+(option store, selected command, remaining list, unknown-option log, error, completion list). -/
+theorem normal_rewrite_parse (P : Prog) (pre post : List Str) (name g3 : Str)
+    (hn : SName name) (hg : G3 g3)
+    (hh : AtHead (run ext .normal P pre))
+    (hk : Known (run ext .normal P pre) ⟨name, attached g3⟩) :
+    ObsEq (parseArgs ext .normal P (pre ++ [chDash :: (name ++ g3)] ++ post))
+          (parseArgs ext .normal P (pre ++ [chDash :: chDash :: (name ++ g3)] ++ post)) := by
+  apply parse_of_sim
+  simp only [List.foldl_cons, List.foldl_nil]
+  exact same_pair_sim ext .normal _ _ _ ⟨name, attached g3⟩ hh.1 hh.2
+    (by rw [isOption_single name g3 .normal hn hg]; rfl)
+    (isOption_long name g3 .normal hn.ne hn.noeq hg) hk
+
+/-- the text after the first character of a SingleDash token -/
+def sdRest (name g3 : Str) : Str := name.drop (utf8Width name) ++ g3
+/-- the first character of a SingleDash token -/
+def sdHead (name : Str) : Str := name.take (utf8Width name)
+
+theorem singledash_split (name g3 : Str) (hn : SName name) (hg : G3 g3) :
+    isOption (chDash :: (name ++ g3)) .singleDash =
+      ([⟨sdHead name, if sdRest name g3 = [] then [] else [sdRest name g3]⟩], true) := by
+  rw [isOption_single name g3 .singleDash hn hg]
+  unfold singleSplit sdRest sdHead
+  have hle := utf8Width_le name
+  by_cases h : (name.length > utf8Width name || g3.length > 0) = true
+  · have : ¬ (name.drop (utf8Width name) ++ g3 = []) := by
+      intro e
+      have e' := congrArg List.length e
+      simp only [List.length_append, List.length_drop, List.length_nil] at e'
+      simp only [Bool.or_eq_true, decide_eq_true_eq] at h
+      omega
+    simp [h, this]
+  · have : name.drop (utf8Width name) ++ g3 = [] := by
+      simp only [Bool.or_eq_true, decide_eq_true_eq, not_or] at h
+      have h1 : name.length ≤ utf8Width name := by omega
+      have h2 : g3 = [] := List.eq_nil_of_length_eq_zero (by omega)
+      subst h2
+      simp [List.drop_eq_nil_of_le h1]
+    simp [h, this]
+
+/-- the rewriting of the SingleDash token `-xREST`: `--x=REST`, or `--x` when REST is empty -/
+def sdRewrite (name g3 : Str) : Str :=
+  if sdRest name g3 = [] then chDash :: chDash :: sdHead name
+  else chDash :: chDash :: (sdHead name ++ chEq :: sdRest name g3)
+
+theorem singledash_rewrite_split (name g3 : Str) (m : Mode) (hn : SName name) :
+    isOption (sdRewrite name g3) m =
+      ([⟨sdHead name, if sdRest name g3 = [] then [] else [sdRest name g3]⟩], true) := by
+  have hx := sname_take name hn
+  unfold sdRewrite
+  by_cases h : sdRest name g3 = []
+  · simp only [h, ↓reduceIte]
+    have := isOption_long (sdHead name) [] m hx.ne hx.noeq (Or.inl rfl)
+    simpa [attached] using this
+  · simp only [h, ↓reduceIte]
+    have := isOption_long (sdHead name) (chEq :: sdRest name g3) m hx.ne hx.noeq (Or.inr ⟨_, rfl⟩)
+    rw [attached_eq _ h] at this
+    exact this
+
+/-- **SingleDash mode, whole command line**: `-xREST` ≡ `--x=REST`, `-x` ≡ `--x`. -/
+theorem singledash_rewrite_parse (P : Prog) (pre post : List Str) (name g3 : Str)
+    (hn : SName name) (hg : G3 g3)
+    (hh : AtHead (run ext .singleDash P pre))
+    (hk : Known (run ext .singleDash P pre) ⟨sdHead name, if sdRest name g3 = [] then [] else [sdRest name g3]⟩) :
+    ObsEq (parseArgs ext .singleDash P (pre ++ [chDash :: (name ++ g3)] ++ post))
+          (parseArgs ext .singleDash P (pre ++ [sdRewrite name g3] ++ post)) := by
+  apply parse_of_sim
+  simp only [List.foldl_cons, List.foldl_nil]
+  exact same_pair_sim ext .singleDash _ _ _ _ hh.1 hh.2
+    (singledash_split name g3 hn hg) (singledash_rewrite_split name g3 .singleDash hn) hk
+
+/-- **Bundling, splitter level**: `-NAME[=V]` splits into one pair per character of NAME (as
+`strings.Split(NAME, "")` cuts it), the attached value going to the last one. -/
+theorem bundling_split (name g3 : Str) (hn : SName name) (hg : G3 g3) :
+    isOption (chDash :: (name ++ g3)) .bundling = (bundlePairs (explode name) (attached g3), true) := by
+  rw [isOption_single name g3 .bundling hn hg]; rfl
+
+theorem splits_letters (name : Str) (hn : SName name) (hnd : ∀ c ∈ name, c ≠ chDash) (ls : List Str)
+    (hsub : ∀ l ∈ ls, l ∈ explode name) :
+    Splits .bundling (ls.map (chDash :: ·)) (ls.map (fun x => ⟨x, []⟩)) := by
+  induction ls with
+  | nil => exact Splits.nil
+  | cons l ls ih =>
+    refine Splits.cons ?_ (ih (fun x hx => hsub x (by simp [hx])))
+    have hl := hsub l (by simp)
+    have hd : l.head? ≠ some chDash := by
+      intro e
+      cases l with
+      | nil => simp at e
+      | cons c r =>
+        simp at e; subst e
+        exact hnd chDash (explode_mem_sub name _ hl chDash (by simp)) rfl
+    have := bundling_letter name l [] hn hl hd (Or.inl rfl)
+    simpa [attached] using this
+
+/-- **Bundling, whole command line**: `-xyz[=V]` ≡ `-x -y -z[=V]` when `x`, `y` are declared flags
+(options that take no argument) and `z` is any declared option.  `ls ++ [z]` are the characters of
+the bundle. -/
+theorem bundling_rewrite_parse (P : Prog) (pre post : List Str) (name g3 : Str) (ls : List Str) (z : Str)
+    (hn : SName name) (hnd : ∀ c ∈ name, c ≠ chDash) (hg : G3 g3)
+    (hls : explode name = ls ++ [z])
+    (hh : AtHead (run ext .bundling P pre))
+    (hf : ∀ l ∈ ls, FlagPair (run ext .bundling P pre) ⟨l, []⟩)
+    (hz : Known (run ext .bundling P pre) ⟨z, attached g3⟩) :
+    ObsEq (parseArgs ext .bundling P (pre ++ [chDash :: (name ++ g3)] ++ post))
+          (parseArgs ext .bundling P (pre ++ (ls.map (chDash :: ·) ++ [chDash :: (z ++ g3)]) ++ post)) := by
+  apply parse_of_sim
+  simp only [List.foldl_cons, List.foldl_nil]
+  have hzmem : z ∈ explode name := by rw [hls]; simp
+  have hzd : z.head? ≠ some chDash := by
+    intro e
+    cases z with
+    | nil => simp at e
+    | cons c r =>
+      simp at e; subst e
+      exact hnd chDash (explode_mem_sub name _ hzmem chDash (by simp)) rfl
+  refine bundle_rewrite_sim ext .bundling _ _ _ _ (ls.map (fun x => ⟨x, []⟩)) ⟨z, attached g3⟩ hh.1 hh.2 ?_ ?_ ?_ ?_ hz
+  · rw [bundling_split name g3 hn hg, hls, bundlePairs_append]
+  · exact splits_letters name hn hnd ls (fun l hl => by rw [hls]; simp [hl])
+  · exact bundling_letter name z g3 hn hzmem hzd hg
+  · intro p hp
+    obtain ⟨l, hl, rfl⟩ := List.mem_map.mp hp
+    exact hf l hl
+
+
+/-! Non-vacuity: the hypotheses of the three whole-parse laws are met by a concrete program and
+command line, and the two sides are the non-trivial parses one expects. -/
+example :
+    SName (b "vn") ∧ G3 (b "=x") ∧ explode (b "vn") = [b "v"] ++ [b "n"] ∧
+    AtHead (run Demo.ext .bundling Demo.prog [b "--num=1"]) ∧
+    FlagPair (run Demo.ext .bundling Demo.prog [b "--num=1"]) ⟨b "v", []⟩ ∧
+    Known (run Demo.ext .bundling Demo.prog [b "--num=1"]) ⟨b "n", attached (b "=x")⟩ :=
+  ⟨⟨by decide, by decide, by decide⟩, Or.inr ⟨b "x", by decide⟩, by decide, ⟨by decide, by decide⟩,
+   ⟨rfl, b "v", 1, by decide, by decide, by decide, by decide⟩, ⟨b "n", by decide⟩⟩
+example :
+    ((parseArgs Demo.ext .bundling Demo.prog [b "--num=1", b "-vn=x", b "rest"]).P.opt 0).value = .s (b "x") ∧
+    ((parseArgs Demo.ext .bundling Demo.prog [b "--num=1", b "-v", b "-n=x", b "rest"]).P.opt 1).value = .b true := by
+  decide
+example :
+    SName (b "nfoo") ∧ G3 [] ∧ AtHead (run Demo.ext .singleDash Demo.prog []) ∧
+    sdRewrite (b "nfoo") [] = b "--n=foo" ∧
+    Known (run Demo.ext .singleDash Demo.prog []) ⟨sdHead (b "nfoo"), [sdRest (b "nfoo") []]⟩ :=
+  ⟨⟨by decide, by decide, by decide⟩, Or.inl rfl, ⟨by decide, by decide⟩, by decide, ⟨b "n", by decide⟩⟩
+
+end WholeParse
 
 end GoModel
